@@ -97,10 +97,12 @@ def run(ctx):
     ok = len(st) == 1 and len(chk) == 1 and len(emp) == 1 and sv.pos_dominates(chk[0], emp[0]) and sv.pos_dominates(emp[0], st[0])
     if ok:
         t = sv.blocks[emp[0][0]]['term']
-        sw = sv.blocks[t['t']]['term']
-        ok = sw['k'] == 'switch'
+        # the switch that tests the emptiness result (directly, or in the caller when the test sits in an inlined helper that returns it)
+        from flow import switch_edges_on_call_result as _sw
+        sw_ = _sw(sv, emp[0])
+        ok = sw_ is not None
         if ok:
-            false_t = dict(sw['ts']).get('0')
+            false_t = sw_[1].get('0')
             ok = false_t is not None and st[0] not in sv.reach_from((false_t, 0), include_start=True)
             # the false edge ends in Err
             errs = [e['pos'] for e in E.result_exits(sv) if e['kind'] == 'err']
